@@ -76,7 +76,7 @@ Q_Cat3 == {"concatn"}
 Q_HistCat == {"concatn-last"}
 Q_Bounds == {"bounds"}
 Q_Yields == {"yields"}
-Q_HistEnd == {"graph", "concatn-last", "order"}
+Q_HistEnd == {"graph", "concatn-last", "order", "peek"}
 Q_SubYld == {"subset", "yields"}
 G_None == {}
 G_Q == {0, 2}
